@@ -108,7 +108,7 @@ func (k *KVStore) Compaction() (bool, error) {
 				if len(k.tables) == 1 {
 					break
 				}
-				delete(k.tablesByCoefficient, t.Coefficient())
+				// Its coefficient has already been unregistered by evictTable.
 				k.tables = append(k.tables[:i], k.tables[i+1:]...)
 				i--
 			}
